@@ -1,4 +1,254 @@
-import DDV.Gen.Lemmas.Tree
+/-
+  C08 — Reset values reach the wire exactly as declared.
+-/
+import DDV.Gen.Lower
+
 namespace DDV.Props.C08
-theorem placeholder : True := trivial
+open DDV.Gen
+open DDV.Bits (ByteOrder BitOrder)
+set_option linter.unusedVariables false
+set_option linter.unusedSimpArgs false
+
+/-- Set-bit `k` of a byte array in the documented numbering (C01): the byte is counted from the
+    front under LE and from the back under BE, the bit inside it from the least-significant end
+    under LSB0 and from the most-significant end under MSB0. -/
+def specBit (bo : ByteOrder) (bito : BitOrder) (a : List Nat) (k : Nat) : Bool :=
+  (a.getD (match bo with | .le => k / 8 | .be => a.length - 1 - k / 8) 0).testBit
+    (match bito with | .lsb0 => k % 8 | .msb0 => 7 - k % 8)
+
+def bytesOf (size : Nat) : Nat := (size + 7) / 8
+
+theorem anyBitFrom_false_iff (bit : Nat → Bool) (lo hi : Nat) :
+    anyBitFrom bit lo hi = false ↔ ∀ k, lo ≤ k → k < hi → bit k = false := by
+  unfold anyBitFrom
+  rw [List.any_eq_false]
+  simp only [List.mem_range, Bool.not_eq_true]
+  constructor
+  · intro h k h1 h2
+    have := h (k - lo) (by omega)
+    rwa [show lo + (k - lo) = k by omega] at this
+  · intro h i hi'
+    exact h (lo + i) (by omega) (by omega)
+
+theorem getD_reverse (a : List Nat) (i : Nat) (h : i < a.length) :
+    a.reverse.getD i 0 = a.getD (a.length - 1 - i) 0 := by
+  simp only [List.getD_eq_getElem?_getD]
+  rw [List.getElem?_reverse h]
+
+/-- The array-form check of the pass, for both bit orders. -/
+def arrayBad (bo : ByteOrder) (bito : BitOrder) (a : List Nat) (size : Nat) : Bool :=
+  let le := if bo == .be then a.reverse else a
+  match bito with
+  | .lsb0 => anyBitFrom (lsb0Bit le) size (8 * le.length)
+  | .msb0 => anyBitFrom (msb0Bit le) size (8 * le.length)
+
+theorem arrayBad_false_iff (bo : ByteOrder) (bito : BitOrder) (a : List Nat) (size : Nat) :
+    arrayBad bo bito a size = false ↔
+      ∀ k, size ≤ k → k < 8 * a.length → specBit bo bito a k = false := by
+  unfold arrayBad
+  have hlen : (if (bo == ByteOrder.be) = true then a.reverse else a).length = a.length := by
+    split <;> simp
+  have hbits : ∀ k, k < 8 * a.length →
+      (lsb0Bit (if (bo == ByteOrder.be) = true then a.reverse else a) k = specBit bo .lsb0 a k) ∧
+      (msb0Bit (if (bo == ByteOrder.be) = true then a.reverse else a) k = specBit bo .msb0 a k) := by
+    intro k hk
+    unfold specBit lsb0Bit msb0Bit
+    cases bo
+    · have : (ByteOrder.le == ByteOrder.be) = false := by decide
+      simp only [this, Bool.false_eq_true, if_false]
+      refine ⟨?_, ?_⟩ <;> first | rfl | trivial
+    · simp only [beq_self_eq_true, if_true]
+      rw [getD_reverse a (k / 8) (by omega)]
+      refine ⟨?_, ?_⟩ <;> first | rfl | trivial
+  simp only [hlen]
+  cases bito with
+  | lsb0 =>
+    simp only
+    rw [anyBitFrom_false_iff]
+    constructor
+    · intro h k h1 h2; rw [← (hbits k h2).1]; exact h k h1 h2
+    · intro h k h1 h2; rw [(hbits k h2).1]; exact h k h1 h2
+  | msb0 =>
+    simp only
+    rw [anyBitFrom_false_iff]
+    constructor
+    · intro h k h1 h2; rw [← (hbits k h2).2]; exact h k h1 h2
+    · intro h k h1 h2; rw [(hbits k h2).2]; exact h k h1 h2
+
+theorem convert_array_eq (a : List Nat) (bito : BitOrder) (size : Nat) (name : String) (bo : ByteOrder) :
+    convertResetValue (.array a) bito size name bo =
+      if a.length ≠ bytesOf size then .error (passErr "reset_wrong_length" [name] [bytesOf size, a.length])
+      else if arrayBad bo bito a size then .error (passErr "reset_bits_above_size" [name] [size])
+      else .ok (.array a) := by
+  unfold convertResetValue arrayBad bytesOf
+  simp only [bind, Except.bind, pure, Except.pure, throw, throwThe, MonadExceptOf.throw]
+  by_cases hl : a.length = (size + 7) / 8
+  · simp only [hl, ne_eq, not_true_eq_false, if_false]
+    cases bito <;> simp only <;> split <;> rfl
+  · simp only [ne_eq, hl, not_false_eq_true, if_true]
+
+/-- **Array form.** Accepted exactly when it has ⌈size/8⌉ bytes and no set-bit at or above
+    `size` (documented numbering of the register's orders); the bytes are kept verbatim; every
+    other outcome is a reported error naming the register. -/
+theorem array_form (a : List Nat) (bito : BitOrder) (size : Nat) (name : String) (bo : ByteOrder) :
+    (convertResetValue (.array a) bito size name bo = .ok (.array a) ↔
+      a.length = bytesOf size ∧ ∀ k, size ≤ k → k < 8 * a.length → specBit bo bito a k = false) ∧
+    (∀ r, convertResetValue (.array a) bito size name bo = .ok r → r = .array a) ∧
+    (∀ s, convertResetValue (.array a) bito size name bo = .error s →
+      ∃ e, s = .error e ∧ e.names = [name]) := by
+  rw [convert_array_eq]
+  by_cases hl : a.length = bytesOf size
+  · simp only [hl, ne_eq, not_true_eq_false, if_false, true_and]
+    cases hb : arrayBad bo bito a size with
+    | true =>
+      simp only [if_true, reduceCtorEq, false_iff]
+      refine ⟨?_, (fun r h => by cases h), fun s h => ⟨_, (Except.error.inj h).symm, rfl⟩⟩
+      intro hall
+      have := (arrayBad_false_iff bo bito a size).2 (by rw [hl]; exact hall)
+      rw [hb] at this; cases this
+    | false =>
+      simp only [Bool.false_eq_true, if_false, true_iff]
+      refine ⟨?_, (fun r h => (Except.ok.inj h).symm), (fun s h => by cases h)⟩
+      have := (arrayBad_false_iff bo bito a size).1 hb
+      rw [hl] at this; exact this
+  · simp only [ne_eq, hl, not_false_eq_true, if_true, reduceCtorEq, false_and, iff_false, not_false_eq_true,
+      true_and]
+    exact ⟨(fun r h => by cases h), fun s h => ⟨_, (Except.error.inj h).symm, rfl⟩⟩
+
+/-! ### Integer form -/
+
+theorem reverseBits8_testBit : ∀ b, b < 256 → ∀ t, t < 8 →
+    (reverseBits8 b).testBit t = b.testBit (7 - t) := by decide +kernel
+
+theorem reverseBits8_involutive : ∀ b, b < 256 → reverseBits8 (reverseBits8 b) = b := by decide +kernel
+
+theorem reverseBits8_lt : ∀ b, b < 256 → reverseBits8 b < 256 := by decide +kernel
+
+theorem toLeBytes16_getD (n j : Nat) (hj : j < 16) :
+    (toLeBytes16 n).getD j 0 = (n / 2 ^ (8 * j)) % 256 := by
+  unfold toLeBytes16
+  simp [List.getD_eq_getElem?_getD, hj]
+
+theorem toLeBytes16_lt (n : Nat) : ∀ b ∈ toLeBytes16 n, b < 256 := by
+  unfold toLeBytes16
+  intro b hb
+  obtain ⟨i, _, rfl⟩ := List.mem_map.1 hb
+  exact Nat.mod_lt _ (by decide)
+
+theorem byte_testBit (n j t : Nat) (ht : t < 8) :
+    ((n / 2 ^ (8 * j)) % 256).testBit t = n.testBit (8 * j + t) := by
+  have : (256 : Nat) = 2 ^ 8 := by decide
+  rw [this, Nat.testBit_mod_two_pow, Nat.testBit_div_two_pow]
+  simp [ht, Nat.add_comm]
+
+/-- Bit `k` of the integer as the pass sees it: for MSB0 registers the bits of every byte are
+    numbered from its most-significant end. -/
+def intBit (bito : BitOrder) (n k : Nat) : Bool :=
+  n.testBit (match bito with | .lsb0 => k | .msb0 => 8 * (k / 8) + (7 - k % 8))
+
+theorem lsb0Bit_int (bito : BitOrder) (n k : Nat) (hk : k < 128) :
+    lsb0Bit (if (bito == BitOrder.msb0) = true then (toLeBytes16 n).map reverseBits8 else toLeBytes16 n) k =
+      intBit bito n k := by
+  unfold lsb0Bit intBit
+  have hj : k / 8 < 16 := by omega
+  have ht : k % 8 < 8 := Nat.mod_lt _ (by decide)
+  cases bito
+  · have : (BitOrder.lsb0 == BitOrder.msb0) = false := by decide
+    simp only [this, Bool.false_eq_true, if_false]
+    rw [toLeBytes16_getD n _ hj, byte_testBit n _ _ ht]
+    congr 1; omega
+  · simp only [beq_self_eq_true, if_true]
+    have hlen : (toLeBytes16 n).length = 16 := by simp [toLeBytes16]
+    have : ((toLeBytes16 n).map reverseBits8).getD (k / 8) 0 = reverseBits8 ((toLeBytes16 n).getD (k / 8) 0) := by
+      simp only [List.getD_eq_getElem?_getD, List.getElem?_map]
+      have : k / 8 < (toLeBytes16 n).length := by omega
+      simp [List.getElem?_eq_getElem this]
+    rw [this, toLeBytes16_getD n _ hj]
+    rw [reverseBits8_testBit _ (Nat.mod_lt _ (by decide)) _ ht, byte_testBit n _ _ (by omega)]
+
+theorem anyBitFrom_congr (f g : Nat → Bool) (lo hi : Nat) (h : ∀ k, lo ≤ k → k < hi → f k = g k) :
+    anyBitFrom f lo hi = anyBitFrom g lo hi := by
+  cases hg : anyBitFrom g lo hi with
+  | false =>
+    rw [anyBitFrom_false_iff] at hg ⊢
+    intro k h1 h2; rw [h k h1 h2]; exact hg k h1 h2
+  | true =>
+    cases hf : anyBitFrom f lo hi with
+    | true => rfl
+    | false =>
+      rw [anyBitFrom_false_iff] at hf
+      have : anyBitFrom g lo hi = false := by
+        rw [anyBitFrom_false_iff]
+        intro k h1 h2; rw [← h k h1 h2]; exact hf k h1 h2
+      rw [hg] at this; cases this
+
+/-- What the property requires of an accepted integer reset value: the integer's little-endian
+    bytes cut to the register's byte length, reversed for big-endian registers. -/
+def expectedIntBytes (n size : Nat) (bo : ByteOrder) : List Nat :=
+  let le := (toLeBytes16 n).take (bytesOf size)
+  if bo == .be then le.reverse else le
+
+/-- **Integer form** (registers of at most 128 bits). Accepted exactly when no bit at or above
+    `size` is set (numbered per byte from the end the register's bit order prescribes); the result
+    is `expectedIntBytes`. -/
+theorem int_form (n : Nat) (bito : BitOrder) (size : Nat) (name : String) (bo : ByteOrder) (hs : size ≤ 128) :
+    convertResetValue (.int n) bito size name bo =
+      if anyBitFrom (intBit bito n) size 128 then .error (passErr "reset_bits_above_size" [name] [size])
+      else .ok (.array (expectedIntBytes n size bo)) := by
+  unfold convertResetValue expectedIntBytes bytesOf
+  simp only [bind, Except.bind, pure, Except.pure, throw, throwThe, MonadExceptOf.throw]
+  have h1 : ¬ size > 128 := by omega
+  simp only [h1, if_false]
+  have hany : anyBitFrom (lsb0Bit (if (bito == BitOrder.msb0) = true then (toLeBytes16 n).map reverseBits8
+      else toLeBytes16 n)) size 128 = anyBitFrom (intBit bito n) size 128 := by
+    apply anyBitFrom_congr
+    intro k _ hk
+    exact lsb0Bit_int bito n k hk
+  rw [hany]
+  cases hb : anyBitFrom (intBit bito n) size 128 with
+  | true => simp
+  | false =>
+    simp only [Bool.false_eq_true, if_false]
+    congr 2
+    have hfin : (if (bito == BitOrder.msb0) = true then
+        ((if (bito == BitOrder.msb0) = true then (toLeBytes16 n).map reverseBits8 else toLeBytes16 n).take
+          ((size + 7) / 8)).map reverseBits8
+      else (if (bito == BitOrder.msb0) = true then (toLeBytes16 n).map reverseBits8 else toLeBytes16 n).take
+          ((size + 7) / 8)) = (toLeBytes16 n).take ((size + 7) / 8) := by
+      cases bito
+      · have : (BitOrder.lsb0 == BitOrder.msb0) = false := by decide
+        simp only [this, Bool.false_eq_true, if_false]
+      · simp only [beq_self_eq_true, if_true]
+        rw [← List.map_take, List.map_map]
+        have : ∀ b ∈ (toLeBytes16 n).take ((size + 7) / 8), (reverseBits8 ∘ reverseBits8) b = b := by
+          intro b hb
+          exact reverseBits8_involutive b (toLeBytes16_lt n b (List.mem_of_mem_take hb))
+        conv => rhs; rw [← List.map_id ((toLeBytes16 n).take ((size + 7) / 8))]
+        exact List.map_congr_left this
+    rw [hfin]
+
+/-- **No reset value declared**: all zero bytes of the register's byte length. -/
+theorem no_reset_is_zero (enums : List Enum) (fields : List Field) (name : String) (cfg : Cfg)
+    (bo : ByteOrder) (bito : BitOrder) (size : Nat) (fs : LFieldSet)
+    (h : transformFieldSet enums fields name cfg bo bito size none [] = .ok fs) :
+    fs.reset = List.replicate (bytesOf size) 0 := by
+  unfold transformFieldSet at h
+  simp only [bind, Except.bind, pure, Except.pure] at h
+  cases hm : fields.mapM (transformField enums) with
+  | error e => rw [hm] at h; cases h
+  | ok x =>
+    rw [hm] at h
+    simp only [Except.ok.injEq] at h
+    rw [← h]; rfl
+
+/-- Non-vacuity / worked examples: a 12-bit BE register with reset 0x0ABC; MSB0 range detection. -/
+example : convertResetValue (.int 0xABC) .lsb0 12 "R" .be = .ok (.array [0x0A, 0xBC]) := by
+  rw [int_form _ _ _ _ _ (by decide)]
+  have : anyBitFrom (intBit .lsb0 0xABC) 12 128 = false := by decide
+  rw [this]; rfl
+example : ∃ e, convertResetValue (.int 0x0F) .msb0 4 "R" .le = .error (.error e) := by
+  rw [int_form _ _ _ _ _ (by decide)]
+  have : anyBitFrom (intBit .msb0 0x0F) 4 128 = true := by decide
+  rw [this]; exact ⟨_, rfl⟩
+
 end DDV.Props.C08
